@@ -66,7 +66,7 @@ pub fn closed_route_region(t: &XTree, x: &[Q]) -> Vec<Row> {
 // ------------------------------------------------------------------------------------------ C02
 
 pub fn compose(rep: &mut Report, tier: Tier) {
-    let (n, reps) = if tier == Tier::Quick { (2, 1) } else { (3, 2) };
+    let (n, reps) = if tier == Tier::Quick { (3, 1) } else { (3, 5) };
     rep.rule = "pairs of shapes (partial allowed) x seeded predicates/terminals from the pools; contract: h(x)==g(f(x)) incl. undefinedness on the half-integer lattice, g unchanged, nodes of f keep index, aff_wf(h); plus apply_func; non-trivial: at least one operand has a decision".into();
     rep.bound = format!("K=2: shapes with <= {n} decisions each, {reps} assignment(s) per pair; K=4: <= 1 decision; dims in {{1,2}}; lattice [-3,3]^d step 1/2");
     let sh = shapes(2, n, true);
@@ -230,7 +230,7 @@ fn nonzero_terms<const K: usize>(t: &mut AffTree<K>, rng: &mut Rng) {
 }
 
 pub fn ops(rep: &mut Report, tier: Tier) {
-    let (n, reps) = if tier == Tier::Quick { (2, 1) } else { (3, 2) };
+    let (n, reps) = if tier == Tier::Quick { (3, 1) } else { (3, 5) };
     rep.rule = "pairs of trees over the same input space x {+,-,*,/} x ownership variants (&a op &b, a op &b, a op b, &a op b), negation, and tree/affine mixed forms in both operand orders; contract: defined iff both operands defined, value = coefficient-wise op of the two reached terminals evaluated at x (differences tolerated only on regions with empty interior: operators prune on the fly); non-trivial: both operands have a decision".into();
     rep.bound = format!("K=2 shapes with <= {n} decisions, {reps} assignment(s) per pair, dims in {{1,2}}, lattice [-3,3]^d step 1/2");
     let sh = shapes(2, n, true);
@@ -461,7 +461,7 @@ fn small_schema(rng: &mut Rng, dim: usize) -> AffTree<2> {
 }
 
 pub fn prune(rep: &mut Report, tier: Tier) {
-    let (n, reps) = if tier == Tier::Quick { (3, 1) } else { (4, 2) };
+    let (n, reps) = if tier == Tier::Quick { (4, 1) } else { (4, 6) };
     rep.rule = "binary trees (total and partial) with predicates from the pool (contradictory, redundant, boundary-touching and zero rows occur) ; fresh states, then compose/eliminate/compose/eliminate pipelines (cached states); contracts: function preserved (exact oracle, differences tolerated only on regions without interior), witnesses satisfy their path conditions within 1e-8, infeasible marks only on regions without interior, and on total trees: no empty-region node, no single-branch decision, idempotent; mirror_points results lie in the polytope; non-trivial: the tree had an exactly-empty path region".into();
     rep.bound = format!("shapes with <= {n} decisions x {reps} seeded assignment(s), dims in {{1,2}}, exact Fourier–Motzkin oracle, lattice [-3,3]^d step 1/2");
     let sh = shapes(2, n, true);
@@ -550,7 +550,7 @@ pub fn prune(rep: &mut Report, tier: Tier) {
         }
     }
     // mirror_points (witness repair heuristic)
-    for k in 0..(if tier == Tier::Quick { 200 } else { 2000 }) {
+    for k in 0..(if tier == Tier::Quick { 2000 } else { 40000 }) {
         idx += 1;
         if rep.skip(idx) {
             continue;
@@ -602,7 +602,7 @@ pub fn prune(rep: &mut Report, tier: Tier) {
 // ------------------------------------------------------------------------------------------ C08
 
 pub fn reduce(rep: &mut Report, tier: Tier) {
-    let (n, reps) = if tier == Tier::Quick { (3, 2) } else { (4, 4) };
+    let (n, reps) = if tier == Tier::Quick { (4, 3) } else { (5, 4) };
     rep.rule = "binary trees with terminals from a tiny pool (equal siblings at several levels, siblings differing only in bias or in one coefficient); contract: function unchanged at every lattice point (no tolerance), node count does not grow, idempotent, afterwards no decision below the root has two equal terminal children, decisions with differing terminal children are kept; non-trivial: reduce removed at least one node".into();
     rep.bound = format!("shapes with <= {n} decisions (partial allowed) x {reps} seeded assignment(s), dims in {{1,2}}");
     let sh = shapes(2, n, true);
@@ -724,7 +724,7 @@ fn out_dim(t: &XTree) -> usize {
 }
 
 pub fn histories(rep: &mut Report, tier: Tier) {
-    let (cases, len) = if tier == Tier::Quick { (600, 3) } else { (6000, 4) };
+    let (cases, len) = if tier == Tier::Quick { (8000, 4) } else { (150000, 5) };
     rep.rule = "random operation histories from every constructor (new, from_aff, from_poly with/without else-branch, schemas) over {apply_func, compose<prune on/off>(tree|schema), infeasible_elimination, reduce, +tree, -tree, neg, +affine} with dimension-compatible arguments; after each step: aff_wf (node input dims, common terminal output dim, decision row counts, leaf flag) and no panic; non-trivial: history contains a pruning step and a composition".into();
     rep.bound = format!("{cases} seeded histories of length <= {len}, dims in {{1,2}}, operand trees with <= 2 decisions");
     let sh = shapes(2, 2, true);
